@@ -38,8 +38,10 @@ package agent
 //@   ensures[pending-untouched] ur.lastDataPoints == old(ur.lastDataPoints)
 //@   modifies ur.currentDataPoints, ur.lastUsageData
 
+//@ ghost confirmedN(ref) int
 //@ contract agent.(*usageTracker).completeSend props C34
 //@   requires ur != nil
+//@   ghostupdate confirmedN(ur) :: confirmedN(ur) == old(confirmedN(ur)) + 1
 //@   ghostupdate sentUsage(ur) :: forall g usageSignal :: sentUsage(ur, g) == old(sentUsage(ur, g)) + old(ur.lastDataPoints)[g]
 //@   ensures[pending-cleared] forall g usageSignal :: ur.lastDataPoints[g] == 0
 //@   modifies ur.lastDataPoints
@@ -58,6 +60,31 @@ package agent
 //@   loop 2 invariant ur.currentDataPoints == old(ur.currentDataPoints) && ur.lastDataPoints == old(ur.lastDataPoints) && (forall g usageSignal :: reported(otlpMetrics, g) == ur.currentDataPoints[g] + ite(seen(g), ur.lastDataPoints[g], 0)) && (forall g usageSignal :: seen(g) ==> in(ur.lastDataPoints, g))
 //@   loop 3 invariant ur.currentDataPoints == old(ur.currentDataPoints) && (forall g usageSignal :: ur.lastDataPoints[g] == old(ur.lastDataPoints)[g] + ite(seen(g), ur.currentDataPoints[g], 0)) && (forall g usageSignal :: seen(g) ==> in(ur.currentDataPoints, g)) && (forall g usageSignal :: reported(otlpMetrics, g) == old(ur.currentDataPoints)[g] + old(ur.lastDataPoints)[g])
 //@   modifies ur.currentDataPoints, ur.lastDataPoints
+
+// The send loop: a report counts as delivered (completeSend) only after the OpAMP client has TAKEN it - its last
+// answer to SendCustomMessage was "no error" - and has signalled that it went out. "Pending" (another message is
+// queued; the channel returned belongs to that other message) is not taking it: the report is offered once more,
+// and if it is still not taken the usage stays with the tracker for the next report.
+//@ ghost offeredN(ref) int
+//@ ghost offerTaken(ref) bool
+//@ package github.com/open-telemetry/opamp-go/client
+//@ assume github.com/open-telemetry/opamp-go/client.OpAMPClient.SendCustomMessage
+//@   ghostupdate offeredN(this), offerTaken(this) :: offeredN(this) == old(offeredN(this)) + 1 && offerTaken(this) == (result1 == nil)
+//@ package agent
+//@ assume agent.(*Logger).Debugf
+// the tracker and the client are set when the agent is built
+//@ final agent.Agent.usageTracker
+//@ final agent.Agent.opampClient
+//@ contract agent.(*Agent).sendUsageReport props C34 havocheap noinv
+//@   arith math
+//@   assert only none
+//@   requires agent != nil && agent.usageTracker != nil && agent.opampClient != nil
+//@   let ur = agent.usageTracker
+//@   let c = agent.opampClient
+//@   ensures[delivered-at-most-once] confirmedN(ur) == old(confirmedN(ur)) || confirmedN(ur) == old(confirmedN(ur)) + 1
+//@   ensures[delivered-only-after-the-client-took-the-report] confirmedN(ur) != old(confirmedN(ur)) ==> offeredN(c) > old(offeredN(c)) && offerTaken(c)
+//@   ensures[offered-at-most-twice] offeredN(c) <= old(offeredN(c)) + 2
+//@   modifies all(confirmedN), all(offeredN), all(offerTaken), all(sentUsage)
 
 // ---- C35: usage is added by the metrics reader goroutine and reported / acknowledged by the agent's own
 //@ guarded_by agent.usageTracker.mut: lastUsageData, lastDataPoints, currentDataPoints
